@@ -82,7 +82,8 @@ def run(run):
     for case, call, v in zip(cases, descs, verdicts):
         digs = [o["digest"] for o in case["obs"]]
         if any(d.startswith("raised:") for d in digs) and len(set(digs)) == 1:
-            run.violation(f"seeded call {call} raised in every environment: {digs[0]}", call, tags={"raised", "api:" + call["api"]})
+            # the same exception in every environment is a deterministic outcome: not a matter of C17
+            run.extra.setdefault("calls_raising_consistently", []).append({"call": call, "error": digs[0]})
             continue
         if v[0] != "ok":
             tag_kw = {f"{k}={val}" for k, val in call.get("kw", {}).items()}
